@@ -269,7 +269,7 @@ def f(xs: list[fp.Real]) -> tuple[fp.Real, fp.Real]:
         p = 1
         for x in xs:
             s = s + x
-            p = p * s
+            p = p + s
     return s, p
 ''', 'f', [('list', [0, 1, 2, 3])], ['loop', 'bundle', 'tuple'])
 
@@ -300,7 +300,7 @@ def f(x: fp.Real, y: fp.Real) -> tuple[fp.Real, fp.Real]:
         a = x
         b = y
         n = 0
-        while a < b and n < 3:
+        while a < b and n < 2:
             a = a + 1
             b = b - a
             n = n + 1
@@ -524,7 +524,7 @@ core('for_inits_enclosing', '(FPCore f (x y) :precision (float 5 10) (let ([i x]
 core('literal_rounding', '(FPCore f (x) :precision (float 5 8) :round toPositive (+ (- 0.1 (! :round toNegative 0.1)) (+ (* 1/3 x) (! :precision (float 5 10) 1.3125))))', ['real'], ['constant', 'props'])
 core('cast_rounds', '(FPCore f (x y) :precision (float 5 10) (let ([e (! :precision real (+ (* x y) x))]) (- (! :precision (float 5 8) :round toPositive (cast e)) (! :precision (float 5 8) :round toNegative (cast e)))))', ['real', 'real'], ['cast', 'props'])
 core('tensor_arg', '(FPCore f ((xs 3) y) :precision (float 5 9) (for ([i (size xs 0)]) ([s y (+ s (ref xs i))]) s))', [('list', [3]), 'real'], ['tensor', 'loop'])
-core('tensor_named_dim', '(FPCore f ((xs n) y) :precision (float 5 9) :round toZero (for ([i n]) ([s y (+ (* s y) (ref xs i))]) s))', [('list', [0, 1, 2, 3]), 'real'], ['tensor', 'loop'])
+core('tensor_named_dim', '(FPCore f ((xs n) y) :precision (float 5 9) :round toZero (for ([i n]) ([s y (+ (* s y) (ref xs i))]) s))', [('list', [0, 1, 2]), 'real'], ['tensor', 'loop'])
 core('array_of_arrays', '(FPCore f (x y) :precision (float 5 10) (let ([m (array (array x y) (array y (+ x y)))]) (+ (ref m 1 1) (+ (ref m 0 1) (size m 1)))))', ['real', 'real'], ['tensor'])
 core('cmp_chains', '(FPCore f (x y z) :precision (float 5 10) (if (and (< x y z) (!= x y z)) (+ x z) (if (or (>= x y z) (== x y)) (- x z) (* y 2))))', ['real', 'real', 'real'], ['compare', 'branch'])
 core('integer_round_inherits', '(FPCore f (x y) :round toPositive (+ (! :precision integer (+ x y)) (! :precision integer :round toNegative (+ x y))))', ['real', 'real'], ['props', 'integer'])
